@@ -58,7 +58,7 @@ class C18(Prop):
     def gen(self, rng, tier):
         n = 80 if tier == 'quick' else 800
         out = []
-        csv_seen = rng.randint(0, 5)
+        csv_seen = rng.randint(0, 6)
         for i in range(n):
             if rng.random() < 0.35:
                 c = tied_topn_case(rng, tier)
@@ -84,7 +84,7 @@ class C18(Prop):
                 # the modes take turns (every mode gets its share under every seed); a mode that does not apply to the
                 # case at hand hands over to the next one
                 cfg = c['cfg']
-                order = ['prequeried', 'after_other', 'same_dir', 'churn', 'default_after_other', 'twice']
+                order = ['prequeried', 'after_other', 'same_dir', 'churn', 'default_after_other', 'resourced', 'twice']
                 start_at = csv_seen % len(order)
                 csv_seen += 1
                 for want in order[start_at:] + order[:start_at]:
@@ -128,6 +128,10 @@ class C18(Prop):
                     c['event_times'] = [[t, k] for t, k in sl.event_times(cfg['start'], cfg['end'])]
                     c['mode'] = 'churn'
                     c['stream'] += ':sources-on-another-market-built-and-dropped-first'
+                elif want == 'resourced':
+                    c['market2'] = csv_market(rng, c['assets'], cfg['start'] // DAY, cfg['end'] // DAY, c['exact'], adjust=c['market'].get('adjust', True))
+                    c['mode'] = 'resourced'
+                    c['stream'] += ':handler-given-new-sources'
                 elif want == 'default_after_other':
                     # sessions that build their OWN data handler from QSTRADER_CSV_DATA_DIR: one on another directory (same symbols,
                     # other prices) runs first in the process, then the session under test; baseline = explicit handler
